@@ -3,6 +3,7 @@ package main
 // Calls: builtins, Go-side models of external functions, call-by-contract, inlining, conservative havoc; loop cutting.
 
 import (
+	"os"
 	"fmt"
 	"go/types"
 	"strings"
@@ -33,6 +34,60 @@ func (fr *Frame) callValue(st *State, fv Value, args []Value, cc *ssa.CallCommon
 				fail("no method %s on %s", cc.Method.Name(), recv.Dyn)
 			}
 			return fr.callFn(st, m, append([]Value{recv.V}, args...), deferOf)
+		}
+		// the dynamic type may be known from the path (a contract said isT(x, T), or a type switch):
+		// devirtualise then, so that the concrete method's own contract / body is used
+		if os.Getenv("GOVC_DEBUG") == "devirt" {
+			fmt.Fprintf(os.Stderr, "devirt? %s.%s tid=%s norm=%s\n", typeKey(cc.Value.Type()), cc.Method.Name(), recv.Tid, st.norm(recv.Tid))
+		}
+		tt := st.norm(recv.Tid)
+		if !tt.IsInt() {
+			// facts of the form  A ==> isT(x, T) && ...  whose antecedent has become true on this path
+			want := tt.String()
+			var scan func(t *Term) *Term
+			scan = func(t *Term) *Term {
+				switch t.Op {
+				case "and":
+					for _, a := range t.Args {
+						if r := scan(a); r != nil {
+							return r
+						}
+					}
+				case "=":
+					if len(t.Args) == 2 {
+						if t.Args[1].IsInt() && t.Args[0].String() == want {
+							return t.Args[1]
+						}
+						if t.Args[0].IsInt() && t.Args[1].String() == want {
+							return t.Args[0]
+						}
+					}
+				}
+				return nil
+			}
+			for _, a := range st.pc {
+				if a.Op != "=>" {
+					continue
+				}
+				k := a.String()
+				saved, had := st.defs[k]
+				delete(st.defs, k) // simplify the fact's parts, not the fact by itself
+				na := st.norm(a)
+				if had {
+					st.defs[k] = saved
+				}
+				if r := scan(na); r != nil {
+					tt = r
+					break
+				}
+			}
+		}
+		if tt.IsInt() && tt.I.IsInt64() && tt.I.Int64() != 0 {
+			if dyn := st.eng.tidTypes[tt.I.Int64()]; dyn != nil {
+				if m := fr.v.prog.LookupMethod(dyn, cc.Method.Pkg(), cc.Method.Name()); m != nil {
+					return fr.callFn(st, m, append([]Value{st.unbox(recv, dyn)}, args...), deferOf)
+				}
+			}
 		}
 		fr.safety(st, Neq(recv.Tid, Int(0)), "method call on nil interface")
 		key := "(" + typeKey(cc.Value.Type()) + ")." + cc.Method.Name()
@@ -105,6 +160,9 @@ func (v *Verifier) contractFor(fn *ssa.Function) *Contract {
 func (fr *Frame) callFn(st *State, fn *ssa.Function, args []Value, deferOf int) []Outcome {
 	v := fr.v
 	full := fn.String()
+	if os.Getenv("GOVC_DEBUG") == "calls" && fr.dry == nil {
+		fmt.Fprintf(os.Stderr, "%*scall %s (from %s)\n", fr.depth*2, "", full, fr.fn.Name())
+	}
 	if m := v.model(full); m != nil {
 		return m(fr, st, args, fn.Signature)
 	}
@@ -132,6 +190,7 @@ func (fr *Frame) callFn(st *State, fn *ssa.Function, args []Value, deferOf int) 
 func (fr *Frame) inline(st *State, fn *ssa.Function, args []Value, deferOf int) []Outcome {
 	var outs []Outcome
 	f2 := fr.v.newFrame(fn, &outs)
+	f2.parent = fr
 	f2.depth = fr.depth + 1
 	f2.dry = fr.dry
 	f2.nopanic = fr.nopanic
@@ -218,6 +277,9 @@ func (fr *Frame) havocCell(st *State, key string, field int) {
 	c, ok := st.heap[key]
 	if !ok {
 		return
+	}
+	if fr.dry == nil {
+		fr.v.noteWriteKey(key, field)
 	}
 	switch cv := c.V.(type) {
 	case Array:
@@ -658,8 +720,22 @@ func shortFn2(fn *ssa.Function) string {
 
 // assertions of the enclosing verified function attached to call sites
 func (fr *Frame) atCallAsserts(st *State, callee string, nth int, callVars map[string]Value) {
-	if fr.ctr == nil || fr.dry != nil || !fr.v.verifying {
+	if fr.dry != nil || !fr.v.verifying {
 		return
+	}
+	// a call made by a function expanded inline belongs to the function under verification: its
+	// at-call assertions apply (numbered along the path, like called("X#n"))
+	here := fr
+	for fr.parent != nil {
+		fr = fr.parent
+	}
+	if fr.ctr == nil {
+		return
+	}
+	if fr != here && st.callN != nil {
+		nth = st.callN[callee] + 1
+	} else if fr != here {
+		nth = 1
 	}
 	for _, cl := range fr.ctr.Clauses {
 		if cl.Kind != "atcall" || !strings.Contains(callee, cl.Callee) {
